@@ -59,7 +59,7 @@ func bound(tier string) string {
 	return "no redefinition: 1 class x full slot alphabet (32 option pairs for slots s,u); both 2-class DAGs x 13-pair curated alphabet; all 10 3-class DAGs x 8-pair alphabet; " +
 		"all 160 4-class DAGs with slot s :initform in every class; initform nil: 1-2 classes x 5-pair, 3 classes x 3-pair alphabet; every permutation of the defclass forms each. " +
 		"Redefinition of any one class (7 kinds) at every later point of every order: 2-class DAGs x 3-pair alphabet, 3-class DAGs x 2-pair alphabet, warm and cold dispatch cache; " +
-		"redefinition of the TOP class of 4 four-class shapes (diamond in both middle orders, diamond + direct top, chain + direct top) x 2-pair alphabet x every applicable kind x warm/cold x all 60 orders. " +
+		"redefinition of the TOP class of 4 four-class shapes (diamond in both middle orders, diamond + direct top, chain + direct top) x 2-pair alphabet x every applicable kind x all 60 orders (cold; warm for one slot assignment). " +
 		"All subsets of valid initargs. CUT relative to the design: slot alphabets smaller than in thorough; 4 classes without slot variation except in the top-redefinition family; no 5-class cases; 4-class redefinition only of the top class of 4 shapes."
 }
 
